@@ -138,6 +138,18 @@ Theorem C10_nonce_distinct :
 Proof. exact nonce_distinct. Qed.
 Print Assumptions C10_nonce_distinct.
 
+(* receive side: the nonce is salt || the explicit part carried in the record (the sender's
+   epoch||seq is one instance), and it determines that explicit part *)
+Theorem C10_nonce_aes_rx_injective :
+  forall iv x x', nonce_aes_rx iv x = nonce_aes_rx iv x' -> x = x'.
+Proof. exact nonce_aes_rx_injective. Qed.
+Print Assumptions C10_nonce_aes_rx_injective.
+
+Theorem C10_nonce_aes_is_rx :
+  forall iv e s, nonce_aes iv e s = nonce_aes_rx iv (nonce_explicit e s).
+Proof. exact nonce_aes_is_rx. Qed.
+Print Assumptions C10_nonce_aes_is_rx.
+
 (* CBC: the block-cipher input is a whole number of blocks with 1..block padding bytes, each
    holding padding_length *)
 Theorem C10_cbc_plaintext_aligned :
